@@ -373,7 +373,9 @@ strings are well-formed letters, every byte string with something after the opti
   sign, integer digits, fraction digits and exponent (`NumberIs`; exponent as accumulated by the implementation,
   equal to the exact one below `0x10000000`), or the grammar derives the same special value with the same sign;
 * rejected with an `Error` ⇒ the grammar rejects.
-Not covered (kept in `accepts_iff_grammar`): panic / fault exits of the many-digit re-parse (C10
+(`Props/C12Full.lean` closes the parts listed next — dichotomy without panic / fault, entry-point validation, value
+clause under `NumberExactAt` — and proves the entry-point statement `accepts_iff_grammar_entry_partial`.)
+Not covered here (kept in `accepts_iff_grammar`): panic / fault exits of the many-digit re-parse (C10
 `parseNumber_total`), `numberBits n = litBits (content)` for at most `u64_step` digits (C01/C05 territory),
 the entry-point validation of `parseFloatModel`, and the excluded classes below, which are *findings*:
 empty input / bare sign (`body = []`), formats with a base prefix. Formats with a digit separator (any flags) are
